@@ -264,3 +264,132 @@ Proof.
   - apply pool_shutdown_frame.
   - apply pool_sweep_frame.
 Qed.
+
+(* ---------------- replacing one worker ---------------- *)
+Lemma find_w_split id ws w : find_w id ws = Some w -> exists a b, ws = a ++ w :: b /\ find_w id a = None.
+Proof.
+  induction ws as [|x r IH]; cbn [find_w]; [discriminate|].
+  destruct (N.eqb (w_id x) id) eqn:E.
+  - intros H; injection H as <-. exists [], r. split; reflexivity.
+  - intros H. destruct (IH H) as (a & b & -> & Ha). exists (x :: a), b. split; [reflexivity|]. cbn [find_w]. rewrite E. exact Ha.
+Qed.
+Lemma put_w_split a w b w' : find_w (w_id w) a = None -> w_id w' = w_id w -> put_w w' (a ++ w :: b) = a ++ w' :: b.
+Proof.
+  intros Ha Hid. induction a as [|x r IH]; cbn [app put_w find_w] in *.
+  - rewrite Hid, N.eqb_refl. reflexivity.
+  - destruct (N.eqb (w_id x) (w_id w)) eqn:E; [discriminate|]. rewrite Hid, E. rewrite IH; [reflexivity|exact Ha].
+Qed.
+
+Lemma PInv_put vms probes p n cr w w' ex' clock' (f : N -> bool) :
+  PInv vms probes (mkpe p n cr) ->
+  find_w (w_id w) (p_workers p) = Some w ->
+  w_id w' = w_id w ->
+  sids w' = filter f (sids w) ->
+  (forall v, In v vms -> v_id v = w_id w -> unk w' = true \/ incl (v_procs v) (sids w' ++ rids w')) ->
+  (w_updated w' = w_updated w \/ p_clock p < w_updated w') -> w_updated w' <= clock' -> p_clock p <= clock' ->
+  PInv vms probes (mkpe (mkp (put_w w' (p_workers p)) ex' clock' (p_quota p) (p_loaded p)) n cr).
+Proof.
+  intros [A B C D E F G] Hf Hid Hs Hcov Hst Hu Hc. cbn [pe_pool pe_next] in *.
+  constructor; cbn [pe_pool pe_next p_workers p_clock].
+  - rewrite put_w_ids. exact A.
+  - intros x Hx. apply in_put in Hx. destruct Hx as [->|Hx]; [rewrite Hid; apply B; eapply find_w_in; eauto|apply B; exact Hx].
+  - exact C.
+  - intros v Hv. destruct (N.eq_dec (v_id v) (w_id w)) as [Heq|Hne].
+    + rewrite Heq. rewrite <- Hid. rewrite (find_put_eq (w_id w') _ w w'); [|rewrite Hid; exact Hf|reflexivity].
+      apply Hcov; assumption.
+    + rewrite find_put_neq by (rewrite Hid; exact Hne). apply D. exact Hv.
+  - destruct (find_w_split _ _ _ Hf) as (a & b & Hl & Ha). unfold starting_all in *.
+    rewrite Hl in E |- *. rewrite (put_w_split a w b w' Ha Hid).
+    assert (H1 : flat_map sids (a ++ w' :: b) = flat_map sids a ++ filter f (sids w) ++ flat_map sids b).
+    { rewrite flat_map_app. cbn [flat_map]. rewrite Hs. reflexivity. }
+    assert (H0 : flat_map sids (a ++ w :: b) = flat_map sids a ++ sids w ++ flat_map sids b).
+    { rewrite flat_map_app. cbn [flat_map]. reflexivity. }
+    cbn [p_workers]. rewrite H1. rewrite H0 in E. rewrite app_assoc in E |- *.
+    apply (NoDup_shrink_mid _ (sids w)); [exact E| |intros y Hy; apply filter_In in Hy; tauto].
+    apply NoDup_filter. apply NoDup_app_iff in E. destruct E as (_ & E & _). apply NoDup_app_iff in E. tauto.
+  - intros pb r Hp. destruct (F pb r Hp) as [F1 F2]. split; [lia|]. intros x v Hx Hv Hstamp.
+    destruct (N.eq_dec (pb_id pb) (w_id w)) as [Heq|Hne].
+    + rewrite Heq in Hx. rewrite <- Hid in Hx. rewrite (find_put_eq (w_id w') _ w w') in Hx; [|rewrite Hid; exact Hf|reflexivity].
+      injection Hx as <-. destruct Hst as [Hst|Hst]; [|lia].
+      apply (F2 w v); [rewrite Heq; exact Hf|exact Hv|congruence].
+    + rewrite find_put_neq in Hx by (rewrite Hid; exact Hne). apply (F2 x v Hx Hv Hstamp).
+  - intros x Hx. cbn [p_workers p_clock] in *. apply in_put in Hx. destruct Hx as [->|Hx]; [exact Hu|].
+    specialize (G x Hx). lia.
+Qed.
+
+(* ---------------- closeRunner / onKilled ---------------- *)
+Lemma del_run_ids u l : map ru (del_run u l) = filter (fun x => negb (N.eqb x u)) (map ru l).
+Proof.
+  unfold del_run. induction l as [|r t IH]; cbn [filter map]; [reflexivity|].
+  destruct (N.eqb (ru r) u); cbn [negb map]; [exact IH|rewrite IH; reflexivity].
+Qed.
+Lemma has_run_in u l : has_run u l = true <-> In u (map ru l).
+Proof.
+  unfold has_run. rewrite existsb_exists. split.
+  - intros (r & Hr & E). apply N.eqb_eq in E. subst. apply in_map. exact Hr.
+  - intros H. apply in_map_iff in H. destruct H as (r & <- & Hr). exists r. split; [exact Hr|apply N.eqb_refl].
+Qed.
+Lemma filter_ne_notin u l : ~ In u l -> filter (fun x => negb (N.eqb x u)) l = l.
+Proof.
+  induction l as [|x r IH]; cbn [filter]; [reflexivity|]. intros H.
+  destruct (N.eqb x u) eqn:E; [apply N.eqb_eq in E; subst; exfalso; apply H; left; reflexivity|].
+  cbn [negb]. rewrite IH; [reflexivity|intros Hin; apply H; right; exact Hin].
+Qed.
+
+Lemma close_runner_view u w ex clock w' ex' clock' :
+  close_runner u w ex clock = (w', ex', clock') ->
+  w_id w' = w_id w /\ sids w' = sids w /\ rids w' = filter (fun x => negb (N.eqb x u)) (rids w) /\ unk w' = unk w /\
+  clock <= clock' /\ (w_updated w' = w_updated w \/ clock < w_updated w') /\ (w_updated w <= clock -> w_updated w' <= clock').
+Proof.
+  unfold close_runner. destruct (has_run u (w_running w)) eqn:Eh; cbn [negb].
+  - set (w1 := with_updated (with_runs w (w_starting w) (del_run u (w_running w))) (clock + 1)).
+    intros H. injection H as <- <- <-.
+    assert (Hw1 : w_id w1 = w_id w /\ sids w1 = sids w /\ rids w1 = filter (fun x => negb (N.eqb x u)) (rids w) /\ unk w1 = unk w /\ w_updated w1 = clock + 1).
+    { unfold w1, sids, rids, unk. cbn. rewrite del_run_ids. auto. }
+    destruct Hw1 as (A & B & C & D & E).
+    destruct (wstate_eqb (w_st w1) WRunning && Nat.eqb (nrun w1) 0) eqn:Ec.
+    + apply andb_true_iff in Ec. destruct Ec as [Ec _].
+      unfold sids, rids, unk in *. cbn. split; [exact A|]. split; [exact B|]. split; [exact C|].
+      split; [|split; [lia|split; [right; cbn in E; lia|intros _; cbn in E; lia]]].
+      rewrite <- D. unfold w1 in *. cbn in *. destruct (w_st w); cbn in *; try discriminate; reflexivity.
+    + split; [exact A|]. split; [exact B|]. split; [exact C|]. split; [exact D|]. split; [lia|]. split; [right; lia|intros _; lia].
+  - intros H. injection H as <- <- <-. assert (~ In u (rids w)).
+    { intros Hin. apply has_run_in in Hin. congruence. }
+    rewrite (filter_ne_notin u (rids w) H). repeat split; auto; lia.
+Qed.
+
+Lemma step_killdelivered c id u s s' : Inv s -> step c (LKillDelivered id u) s = Some s' -> Inv s'.
+Proof.
+  intros [Hn HP] H. cbn [step] in H. injection H as <-. unfold Inv. cbn [s_vms s_probes s_env].
+  set (f := fun l : list N => filter (fun x => negb (N.eqb x u)) l).
+  destruct (set_procs_shrink (s_vms s) (s_probes s) (s_env s) id f Hn HP) as [Hn' HP'].
+  { intros l Hl. apply NoDup_filter. exact Hl. }
+  { intros l y Hy. apply filter_In in Hy. tauto. }
+  split; [exact Hn'|].
+  destruct s as [[p n cr] vms probes]. cbn [spool s_env s_vms s_probes pe_pool pe_next pe_create] in *.
+  unfold kill_delivered. destruct (find_w id (p_workers p)) as [w|] eqn:Ef; [|destruct p; exact HP'].
+  destruct (close_runner u w (p_exited p) (p_clock p)) as [[w' ex'] clock'] eqn:Ec.
+  destruct (close_runner_view _ _ _ _ _ _ _ Ec) as (A & B & C & D & L & St & U).
+  pose proof (find_w_id _ _ _ Ef) as Hid. rewrite <- Hid in Ef.
+  apply (PInv_put _ _ p n cr w w' ex' clock' (fun _ => true) HP' Ef A).
+  - rewrite B. clear. induction (sids w) as [|x r IH]; cbn [filter]; [reflexivity|]. rewrite <- IH. reflexivity.
+  - intros v Hv Hvid. pose proof (pi_cov _ _ _ HP' v Hv) as Dv. cbn [pe_pool] in Dv. rewrite Hvid, Ef in Dv.
+    destruct Dv as [Dv|Dv]; [left; congruence|right].
+    (* the modified VM has no process u any more *)
+    assert (Hnu : ~ In u (v_procs v)).
+    { rewrite Hid in Hvid. subst id.
+      destruct (find_vm (v_id v) vms) as [v0|] eqn:Ev0.
+      - destruct (set_procs_split (v_id v) f vms v0 Ev0) as (a & b & Hl & Ha & Hs).
+        assert (Hfind : find_vm (v_id v) (set_procs (v_id v) f vms) = Some (mkvm (v_id v0) (v_it v0) (f (v_procs v0)))).
+        { rewrite Hs. rewrite find_vm_app, Ha. cbn [find_vm v_id]. rewrite (find_vm_id _ _ _ Ev0), N.eqb_refl. reflexivity. }
+        rewrite (in_find_vm _ v Hn' Hv) in Hfind. injection Hfind as ->. cbn [v_procs]. unfold f. intros Hin.
+        apply filter_In in Hin. destruct Hin as [_ Hin]. rewrite N.eqb_refl in Hin. discriminate.
+      - rewrite (set_procs_none _ _ _ Ev0) in Hv. exfalso.
+        apply (in_find_vm _ v Hn) in Hv. congruence. }
+    intros y Hy. specialize (Dv y Hy). rewrite B, C. apply in_app_iff in Dv. apply in_app_iff.
+    destruct Dv as [Dv|Dv]; [left; exact Dv|right]. apply filter_In. split; [exact Dv|].
+    destruct (N.eqb y u) eqn:E; [apply N.eqb_eq in E; subst; contradiction|reflexivity].
+  - exact St.
+  - apply U. apply (pi_stamps _ _ _ HP'). cbn [pe_pool]. eapply find_w_in; eauto.
+  - exact L.
+Qed.
